@@ -23,6 +23,10 @@
 
 #include "opnmidi_opn2.hpp"
 #include "opnmidi_private.hpp"
+#include "opnmidi_verif.hpp"
+#ifdef OPNMIDI_VERIF
+struct OpnVerifHooks g_opn_verif = { NULL, NULL, NULL, NULL };
+#endif
 
 #if defined(OPNMIDI_DISABLE_NUKED_EMULATOR) && defined(OPNMIDI_DISABLE_MAME_EMULATOR) && \
     defined(OPNMIDI_DISABLE_GENS_EMULATOR) && defined(OPNMIDI_DISABLE_GX_EMULATOR) && \
@@ -259,16 +263,28 @@ bool OPN2::setupLocked()
 
 void OPN2::writeReg(size_t chip, uint8_t port, uint8_t index, uint8_t value)
 {
+#ifdef OPNMIDI_VERIF
+    if(g_opn_verif.reg)
+        g_opn_verif.reg(this, chip, port, index, value, 0);
+#endif
     m_chips[chip]->writeReg(port, index, value);
 }
 
 void OPN2::writeRegI(size_t chip, uint8_t port, uint32_t index, uint32_t value)
 {
+#ifdef OPNMIDI_VERIF
+    if(g_opn_verif.reg)
+        g_opn_verif.reg(this, chip, port, index, value, 0);
+#endif
     m_chips[chip]->writeReg(port, static_cast<uint8_t>(index), static_cast<uint8_t>(value));
 }
 
 void OPN2::writePan(size_t chip, uint32_t index, uint32_t value)
 {
+#ifdef OPNMIDI_VERIF
+    if(g_opn_verif.reg)
+        g_opn_verif.reg(this, chip, 0, index, value, 1);
+#endif
     m_chips[chip]->writePan(static_cast<uint16_t>(index), static_cast<uint8_t>(value));
 }
 
@@ -632,6 +648,12 @@ void OPN2::reset(int emulator, unsigned long PCM_RATE, OPNFamily family, void *a
     {
         OPNChipBase *chip = NULL;
 
+        OPN_VERIF_YIELD("OPN2::reset:before-chip");
+#ifdef OPNMIDI_VERIF
+        if(g_opn_verif.make_chip && opn2_isEmulatorAvailable(emulator))
+            chip = g_opn_verif.make_chip(this, emulator, static_cast<int>(family), i);
+        if(!chip)
+#endif
         switch(emulator)
         {
         default:
@@ -720,6 +742,10 @@ void OPN2::reset(int emulator, unsigned long PCM_RATE, OPNFamily family, void *a
     uint8_t regLFOSetup = (m_lfoEnable ? 8 : 0) | (m_lfoFrequency & 7);
     m_regLFOSetup = regLFOSetup;
 
+#ifdef OPNMIDI_VERIF
+    if(g_opn_verif.chips_reset)
+        g_opn_verif.chips_reset(this, m_numChips, emulator, static_cast<int>(m_chipFamily));
+#endif
     for(size_t chip = 0; chip < m_numChips; ++chip)
     {
         writeReg(chip, 0, 0x22, regLFOSetup);//push current LFO state
